@@ -20,8 +20,8 @@ GEN_MODE = {"C01": "inputs", "C03": "hist3", "C12": "hist12", "C13": "sizes", "C
 GEN_REQUIRED = {"MCGenerator.tla": ["Byte", "BeginSlice", "SliceByte"], "MCRef.tla": ["Next"]}
 GEN_RULE = {
     "C01": "inputs from 6 classes (uniform, low-entropy, periodic, zero-heavy, trigger-word adversarial, one-level piece floods) with lengths on/around block size borders; each hashed in one slice and by hash_buf, all four finalisers compared with L1 by TLC; a piece-count corner grid at every block size index, dense inputs on every small border through the size-declaring routes, and dense-then-sparse input pairs through ONE reused object (reset in between). non-trivial = distinct units in which the real generator performed at least one block hash elimination (bhidx_start > 0 by the guarded probe)",
-    "C03": "call histories: one payload delivered by random schedules of update/update_by_iter/update_by_byte/+= forms, clones, finalisation after every call, hash_buf, hash_stream with a chunking reader; trigger-free runs of 2^32+64 bytes through ONE iterator call (and 2^31.. / 2^16.. through the other forms) against the closed-form zero-run state; every observation compared with L1 on the concatenated prefix. non-trivial = distinct histories with at least one elimination",
-    "C12": "call histories with set_fixed_input_size(_in_usize) before / in the middle / at the end (right, wrong, too large, repeated) and reset() followed by a second full history. non-trivial = distinct histories with at least one elimination",
+    "C03": "BOTH DIRECTIONS: call histories TLC generates from GenGenerator.tla replayed on the code; and call histories: one payload delivered by random schedules of update/update_by_iter/update_by_byte/+= forms, clones, finalisation after every call, hash_buf, hash_stream with a chunking reader; trigger-free runs of 2^32+64 bytes through ONE iterator call (and 2^31.. / 2^16.. through the other forms) against the closed-form zero-run state; every observation compared with L1 on the concatenated prefix. non-trivial = distinct histories with at least one elimination",
+    "C12": "BOTH DIRECTIONS: call histories TLC generates from GenGenerator.tla (starts around block size borders, chunk descriptors, declarations aimed at the abstract state, resets, clones) replayed on the code; and call histories with set_fixed_input_size(_in_usize) before / in the middle / at the end (right, wrong, too large, repeated) and reset() followed by a second full history. non-trivial = distinct histories with at least one elimination",
     "C18": "hash_stream over scripted readers: payloads of length 0, 1, 7, 300, 32 KiB +-1 (thorough: 64 KiB +-1, 100 KB) delivered by read sizes {1,2,7,32767,32768,all,random}; an error of 5 kinds (with an identity) injected at read index 0, 1, 2, the last data read and the EOF read; premature EOF; reads-after-error counted. hash_file on regular temporary files, a missing path, a directory, /proc/self/status and a FIFO (metadata size 0). non-trivial = scripts with an injected fault (counted in driver_stats); distinct_nontrivial counts payload units with an elimination",
     "C13": "generators positioned after N zero bytes (guarded hook, validated against really feeding zeros) followed by trigger-word suffixes at every block size border 192*2^n +-2, around 96 GiB and 192 GiB, small-input query. non-trivial = distinct scenarios with at least one elimination",
 }
@@ -129,7 +129,7 @@ CMP = {
             "rule": "the pair events of C02 (score both orders, candidate both orders, windows / numeric windows / index windows of the left operand); the laws are theorems of the spec on complete small domains (MC) and are re-checked on the recorded values. non-trivial = candidate pairs",
             "nontrivial": ("cmp", "candidate_pairs")},
     "C17": {"modes": ["reuse"], "gen_direction": True, "mc": {"quick": [("target", "MCTarget.tla", "MCTarget.cfg")], "thorough": [("target", "MCTarget.tla", "MCTarget.cfg")]},
-            "rule": "histories of init_from / From / clear over pools of hashes of differing lengths and alphabets (empty, shorter, reversed, superset), observed after every step: is_valid, full_eq(fresh), is_equiv / compare / candidate against every pool member, all 64 masks; plus the clustering loop (one target re-initialised thousands of times). non-trivial = re-initialisation steps",
+            "rule": "BOTH DIRECTIONS: behaviours TLC generates from GenTarget.tla (every new content in a chosen relation to the one it replaces: proper prefix, extension, empty, full length, other block size) replayed on a real target / position array; and histories of init_from / From / clear over pools of hashes of differing lengths and alphabets (empty, shorter, reversed, superset), observed after every step: is_valid, full_eq(fresh), is_equiv / compare / candidate against every pool member, all 64 masks; plus the clustering loop (one target re-initialised thousands of times). non-trivial = re-initialisation steps",
             "nontrivial": ("reuse", "steps")},
     "C20": {"modes": ["tables"], "mc": {"quick": LAWS[:1], "thorough": LAWS[:1]},
             "rule": "complete finite domains dumped from the implementation and judged row by row by TLC: the set {x in u32 : is_valid(x)} (all 2^32 swept), all 256 logarithms, all 31x31 relations, raw score on all (l1,l2,d), score cap on 0..31 x 0..64 x 0..64. non-trivial = table rows",
